@@ -138,6 +138,9 @@ func (x *cliExec) routerSide() {
 				e.Req = int(m.Request)
 			case *wamp.Call:
 				e.Req = int(m.Request)
+				if p, _ := m.Options["progress"].(bool); p {
+					e.X = "p" // a chunk of a progressive call, more follow
+				}
 			case *wamp.Cancel:
 				e.Req = int(m.Request)
 				e.X, _ = wamp.AsString(m.Options["mode"])
@@ -188,6 +191,8 @@ func (x *cliExec) cb(k string, a, b int) {
 	x.cbs = append(x.cbs, CliCb{k, a, b})
 	x.mu.Unlock()
 }
+
+var errFeed = errors.New("the feed of the progressive call failed")
 
 func classify(err error) string {
 	switch {
@@ -260,6 +265,46 @@ func (x *cliExec) api(in CliInput) {
 			x.ret(in.G, classifySimple(x.c.Unregister(in.Name)), 0)
 		case "pub":
 			x.ret(in.G, classifySimple(x.c.Publish(in.Name, wamp.Dict{"acknowledge": true}, wamp.List{1}, nil)), 0)
+		case "callp":
+			// CallProgressive: in.A chunks; the feed ends with progress = false, with the option
+			// left out, or with an error of the callback instead of the last chunk
+			ctx, cancel := context.WithCancel(context.Background())
+			x.mu.Lock()
+			x.cancels[in.G] = cancel
+			x.mu.Unlock()
+			var progcb client.ProgressHandler
+			if in.Prog {
+				g := gNum(in.G)
+				progcb = func(r *wamp.Result) { x.cb("prog", g, intArg(r.Arguments)) }
+			}
+			k := 0
+			feed := func(context.Context) (wamp.Dict, wamp.List, wamp.Dict, error) {
+				k++
+				switch {
+				case k < in.A:
+					return wamp.Dict{"progress": true}, wamp.List{k}, nil, nil
+				case in.How == "err":
+					return nil, nil, nil, errFeed
+				case in.How == "unset":
+					return nil, wamp.List{k}, nil, nil
+				}
+				return wamp.Dict{"progress": false}, wamp.List{k}, nil, nil
+			}
+			res, err := x.c.CallProgressive(ctx, in.Name, feed, progcb)
+			out := classify(err)
+			if errors.Is(err, errFeed) {
+				out = "cberr"
+			}
+			req := 0
+			if res != nil {
+				req = int(res.Request)
+			}
+			var rpc client.RPCError
+			if errors.As(err, &rpc) && rpc.Err != nil {
+				req = int(rpc.Err.Request)
+			}
+			x.ret(in.G, out, req)
+			cancel()
 		case "call":
 			ctx, cancel := context.WithCancel(context.Background())
 			x.mu.Lock()
@@ -465,7 +510,7 @@ func (x *cliExec) run(sc *CliScenario) {
 		panic("harness: client did not say HELLO")
 	}
 	feats := wamp.Dict{"features": wamp.Dict{"payload_passthru_mode": true, "call_canceling": true, "progressive_call_results": true,
-		"call_timeout": true, "publisher_identification": true}}
+		"call_timeout": true, "publisher_identification": true, "progressive_call_invocations": true}}
 	rtr.Send() <- &wamp.Welcome{ID: 7, Details: wamp.Dict{"roles": wamp.Dict{"broker": feats, "dealer": feats}}}
 	x.c = <-made
 	go x.routerSide()
